@@ -1,1 +1,186 @@
-//! Hooks for property C11 (empty until needed).
+//! Hooks for property C11: drive `archiver::parent::Parent` on in-memory trees.
+//!
+//! `MemTrees` is a minimal read-only backend + index: every tree is one "pack" whose id is the
+//! tree id and whose content is the tree's JSON (no encryption, no compression), so that
+//! `Tree::from_backend` loads exactly the node lists handed in; `has_data` answers from a set.
+//! `ParentHandle` wraps `Parent::new` / `Parent::process` / `Parent::tree_id` and returns plain data.
+use std::{
+    collections::{BTreeMap, BTreeSet},
+    ffi::OsString,
+    path::PathBuf,
+    sync::Arc,
+};
+
+use bytes::Bytes;
+
+use crate::{
+    Id,
+    archiver::{
+        parent::{Parent, ParentResult},
+        tree::TreeType,
+    },
+    backend::{FileType, ReadBackend, decrypt::DecryptReadBackend, node::Node},
+    blob::{BlobId, BlobLocation, BlobType, tree::Tree, tree::TreeId},
+    error::{ErrorKind, RusticError, RusticResult},
+    index::{IndexEntry, ReadGlobalIndex, ReadIndex},
+    repofile::packfile::PackId,
+};
+
+#[derive(Clone, Debug, Default)]
+pub struct MemTrees {
+    trees: Arc<BTreeMap<Id, Vec<u8>>>,
+    data: Arc<BTreeSet<Id>>,
+}
+
+impl MemTrees {
+    /// `trees`: (id, serialised bytes); the bytes need not be valid JSON (load error) and the id
+    /// need not be their hash (reads never verify it).
+    pub fn new(trees: Vec<(Id, Vec<u8>)>, data_ids: Vec<Id>) -> Self {
+        Self {
+            trees: Arc::new(trees.into_iter().collect()),
+            data: Arc::new(data_ids.into_iter().collect()),
+        }
+    }
+}
+
+impl ReadBackend for MemTrees {
+    fn location(&self) -> String {
+        "verif:memtrees".to_string()
+    }
+    fn list_with_size(&self, _tpe: FileType) -> RusticResult<Vec<(Id, u32)>> {
+        Ok(Vec::new())
+    }
+    fn read_full(&self, _tpe: FileType, id: &Id) -> RusticResult<Bytes> {
+        self.trees
+            .get(id)
+            .map(|b| Bytes::from(b.clone()))
+            .ok_or_else(|| RusticError::new(ErrorKind::Backend, "no such tree"))
+    }
+    fn read_partial(
+        &self,
+        tpe: FileType,
+        id: &Id,
+        _cacheable: bool,
+        offset: u32,
+        length: u32,
+    ) -> RusticResult<Bytes> {
+        let b = self.read_full(tpe, id)?;
+        Ok(b.slice(offset as usize..(offset + length) as usize))
+    }
+    fn warmup_path(&self, _tpe: FileType, _id: &Id) -> String {
+        String::new()
+    }
+}
+
+impl DecryptReadBackend for MemTrees {
+    fn decrypt(&self, data: &[u8]) -> RusticResult<Vec<u8>> {
+        Ok(data.to_vec())
+    }
+    fn read_encrypted_full(&self, tpe: FileType, id: &Id) -> RusticResult<Bytes> {
+        self.read_full(tpe, id)
+    }
+}
+
+impl ReadIndex for MemTrees {
+    fn get_id(&self, tpe: BlobType, id: &BlobId) -> Option<IndexEntry> {
+        if tpe != BlobType::Tree {
+            return None;
+        }
+        let raw: Id = **id;
+        self.trees.get(&raw).map(|b| {
+            IndexEntry::new(
+                BlobType::Tree,
+                PackId::from(raw),
+                BlobLocation {
+                    offset: 0,
+                    length: b.len() as u32,
+                    uncompressed_length: None,
+                },
+            )
+        })
+    }
+    fn total_size(&self, _tpe: BlobType) -> u64 {
+        0
+    }
+    fn has(&self, tpe: BlobType, id: &BlobId) -> bool {
+        let raw: Id = **id;
+        match tpe {
+            BlobType::Tree => self.trees.contains_key(&raw),
+            BlobType::Data => self.data.contains(&raw),
+        }
+    }
+}
+
+impl ReadGlobalIndex for MemTrees {}
+
+/// `ParentResult` in plain data.
+#[derive(Clone, Debug, PartialEq, Eq)]
+pub enum PResult<T> {
+    Matched(T),
+    NotFound,
+    NotMatched,
+}
+
+fn conv<T, U>(r: ParentResult<T>, f: impl FnOnce(T) -> U) -> PResult<U> {
+    match r {
+        ParentResult::Matched(t) => PResult::Matched(f(t)),
+        ParentResult::NotFound => PResult::NotFound,
+        ParentResult::NotMatched => PResult::NotMatched,
+    }
+}
+
+/// Serialise a node list the way trees are stored (`Tree::serialize` without the id).
+pub fn tree_json(nodes: Vec<Node>) -> Vec<u8> {
+    let t = Tree { nodes };
+    t.serialize().expect("serialize").0
+}
+
+pub struct ParentHandle {
+    parent: Parent,
+    mem: MemTrees,
+}
+
+impl ParentHandle {
+    /// `Parent::new(be, index, parents, ignore_ctime, ignore_inode)` over the in-memory trees.
+    pub fn new(mem: MemTrees, parents: Vec<Id>, ignore_ctime: bool, ignore_inode: bool) -> Self {
+        let parent = Parent::new(
+            &mem,
+            &mem,
+            parents.into_iter().map(TreeId::from),
+            ignore_ctime,
+            ignore_inode,
+        );
+        Self { parent, mem }
+    }
+
+    /// `Parent::process(TreeType::NewTree((path, node, name)))`; Err = TreeStackEmptyError.
+    pub fn new_tree(&mut self, node: Node, name: OsString) -> Result<PResult<Id>, ()> {
+        let item: TreeType<(), OsString> = TreeType::NewTree((PathBuf::new(), node, name));
+        match self.parent.process(&self.mem, &self.mem, item) {
+            Ok(TreeType::NewTree((_, _, r))) => Ok(conv(r, |t| *t)),
+            Ok(_) => unreachable!(),
+            Err(_) => Err(()),
+        }
+    }
+
+    /// `Parent::process(TreeType::EndTree)`; false = TreeStackEmptyError.
+    pub fn end_tree(&mut self) -> bool {
+        let item: TreeType<(), OsString> = TreeType::EndTree;
+        self.parent.process(&self.mem, &self.mem, item).is_ok()
+    }
+
+    /// `Parent::process(TreeType::Other((path, node, ())))`: the node handed on and the result.
+    pub fn other(&mut self, node: Node) -> Result<(Node, PResult<()>), ()> {
+        let item: TreeType<(), OsString> = TreeType::Other((PathBuf::new(), node, ()));
+        match self.parent.process(&self.mem, &self.mem, item) {
+            Ok(TreeType::Other((_, node, ((), r)))) => Ok((node, conv(r, |()| ()))),
+            Ok(_) => unreachable!(),
+            Err(_) => Err(()),
+        }
+    }
+
+    /// `Parent::tree_id()`
+    pub fn tree_id(&self) -> Option<Id> {
+        self.parent.tree_id().map(|t| *t)
+    }
+}
